@@ -51,6 +51,9 @@ def run(ctx):
     ctx.rule("R2.unsafe-impl-census", "every unsafe impl of Send/Sync is in the justified table with exactly the listed where-clauses", floor=8)
     ctx.rule("R3.storage-by-type", "managed handles own Arc<Mutex<pool>> (directly or through their Remover), local ones Rc<RefCell<pool>>; safe insertion APIs of thread-safe pools require T: Send; RawOpaquePoolThreadSafe::new is unsafe", floor=12)
     ctx.rule("R5.last-drop-destroys", "the Drop of every managed unique handle / managed Remover takes the pool lock unconditionally (blocking `lock`) and reaches the removal on every normal path", floor=4)
+    ctx.rule("R6.one-critical-section-per-decision", "in the thread-safe pools no decision taken under one acquisition of the pool mutex guards an action under a later acquisition (check-then-act: the pool may change in between)", floor=25)
+    ctx.rule("R7.shrink-keeps-live", "shrink_to_fit only drops trailing EMPTY slabs: a non-empty slab dropped destroys objects before their last handle is dropped (same rule as C01.R3 / C02.R9)", floor=1, shape_dependent=True)
+    ctx.rule("R8.counts-are-not-positions", "no slab index, scan bound or iterator cursor derives from an object count (same rule as C02.R12): a live object above a hole would be skipped or dropped early", floor=10)
     ctx.rule("R4.single-remover", "RawOpaquePoolThreadSafe::remove/remove_unpin are called only from the managed unique handles' Drop/into_inner and the managed Removers' Drop", floor=6)
 
     pf = F.probe_facts("infinity_pool_probe", ["infinity_pool"], repo=ctx.repo, log=ctx.log)
@@ -244,3 +247,40 @@ def run(ctx):
         ok = pc == (1, 1) and lock_names == ["lock"]
         ctx.ob("R5.last-drop-destroys", key.split("::handles::")[-1], ok, b.loc(),
                f"removal calls per normal path (min,max)={pc}; mutex methods used: {lock_names} (need exactly the blocking `lock`)")
+
+    # ---------------- R6: check-then-act across two acquisitions of the pool mutex
+    from ..analysis import LockSections
+
+    def is_lock(t):
+        return t["callee"].get("method") in ("lock", "try_lock") and callee_key(t["callee"]).rsplit("::", 1)[0].endswith("Mutex")
+
+    ls = LockSections(prog, is_lock)
+    for b in prog.bodies:
+        if b.is_closure or not ls.locks(b):
+            continue
+        ctx.fn(b)
+        pairs, sites = ls.check_then_act(b)
+        det = f"{len(sites)} critical-section site(s)"
+        if pairs:
+            bb1, t1, bb2, t2, gbb = pairs[0]
+            det += (f"; the result of `{callee_key(t1['callee']).split('::')[-1]}` (one acquisition, line {t1['span']['line']}) decides at line "
+                    f"{b.blocks[gbb].term.get('span', {}).get('line', '?')} whether `{callee_key(t2['callee']).split('::')[-1]}` (another acquisition, line {t2['span']['line']}) runs: "
+                    f"another thread can change the pool between the two")
+        ctx.ob("R6.one-critical-section-per-decision", b.key.replace("infinity_pool::", ""), not pairs, b.loc(), det)
+
+    # ---------------- R7 (= C01.R3): objects are not destroyed before their last handle is dropped
+    from .c01 import shrink_rule
+    shrink_rule(ctx, prog, "R7.shrink-keeps-live")
+    from .c02 import counts_are_not_positions
+    counts_are_not_positions(ctx, prog, "R8.counts-are-not-positions")
+
+    # ---------------- rules shared with the sibling properties anchored in the same functions
+    ctx.import_rules("C04", {
+        "R5.containment": "a guard still live when a user panic is re-raised poisons the pool mutex; the drop of the last handle then panics instead of removing the object",
+    })
+    ctx.import_rules("C02", {
+        "R2.remove-drops-once": "the thread-safe pools remove through the same Slab::remove",
+        "R3.double-remove-guard": "same",
+        "R4.pool-length": "quiescent len() is this counter",
+        "R7.removal-authority": "a second remover destroys an object while other handles exist",
+    })
